@@ -307,10 +307,61 @@ def check_label(w):
     return False, "coupling connects the gate's qubits"
 
 
+def step_witness(w, s):
+    """the single-load witness of one step of a history"""
+    return {"kind": "load", "setup": w["setup"], "N": w["N"], "mode": s.get("mode"), "params": w.get("params"),
+            "gates": s["gates"]}
+
+
+def check_history(w):
+    """witness kind 'history': several circuits loaded one after the other on ONE processor instance (the same circuit again,
+    different circuits alternately, optionally through run_state(qc=...) or with one compiler object handed to every load).
+    After EVERY load the property must hold exactly as for a first load: propagated pulses x reported global phase = unitary
+    of the circuit loaded last."""
+    setup, N, steps = w["setup"], w["N"], w["steps"]
+    if not steps or not all(in_class(step_witness(w, s)) for s in steps):
+        return False, "outside the property's class"
+    import qutip
+    from qutip_qip.compiler import SpinChainCompiler
+    try:
+        qcs = [build_circuit(N, s["gates"], p8=False) for s in steps]
+        Vs = [qc.compute_unitary().full() for qc in qcs]
+    except Exception as e:
+        return False, f"circuit not constructible / no unitary ({type(e).__name__})"
+    proc = make_processor(setup, N, w.get("params"))
+    shared = SpinChainCompiler(N, proc.params, setup=setup) if w.get("compiler") == "shared" else None
+    for k, (s, qc, V) in enumerate(zip(steps, qcs, Vs)):
+        how = "run_state(init_state, qc=qc, analytical=True)" if s.get("via") == "run_state" else \
+              f"load_circuit(qc, schedule_mode={s.get('mode')!r}" + (", compiler=<the same compiler object>)" if shared else ")")
+        try:
+            with SC.patched(None):
+                if s.get("via") == "run_state":
+                    proc.run_state(qutip.basis([2] * N, [0] * N), qc=qc, analytical=True)
+                elif shared is not None:
+                    proc.load_circuit(qc, schedule_mode=s.get("mode"), compiler=shared)
+                else:
+                    proc.load_circuit(qc, schedule_mode=s.get("mode"))
+            U = run_product(proc)
+        except Exception as e:
+            return True, f"step {k + 1} of {len(steps)} on one {setup}({N}) processor: {how} raises {type(e).__name__}: {str(e)[:80]}"
+        d = float(np.abs(U - V).max())
+        if d > 1e-9:
+            same = [j + 1 for j in range(k) if steps[j]["gates"] == s["gates"]]
+            f1, d1 = check_property(step_witness(w, s))
+            return True, (f"step {k + 1} of {len(steps)} on ONE {setup}({N}) processor, {how}: propagator of the loaded pulses "
+                          f"(reported global phase {proc.global_phase:.6g} included) differs from the unitary of the circuit "
+                          f"loaded in this step by {d:.3g}" +
+                          (f"; the same circuit was loaded before in step(s) {same}" if same else "") +
+                          ("; on a fresh processor the same load is exact" if not f1 else "; a fresh processor fails as well"))
+    return False, f"every one of the {len(steps)} loads on one processor reproduces the unitary of its circuit"
+
+
 def check_property(w):
     """The property on the real code for one witness -> (fails, detail)."""
     if w.get("kind") == "label":
         return check_label(w)
+    if w.get("kind") == "history":
+        return check_history(w)
     if not in_class(w):
         return False, "outside the property's class"
     setup, N = w["setup"], w["N"]
@@ -384,12 +435,45 @@ def detect_pre():
 _FLAGS = {}
 
 
+def behavioural_flags():
+    """(pre, drops, empty_ok) observed on the live objects - used only when the source is no longer recognised by the
+    translators (the check is red then anyway; the failing-input search must still know which recorded classes to skip)"""
+    from qutip_qip.operations import Gate
+    from qutip_qip.circuit import QubitCircuit
+    try:
+        pre = detect_pre()
+    except Exception:
+        try:
+            qc = QubitCircuit(3)
+            qc.add_gate("TOFFOLI", controls=[0, 1], targets=[2])
+            tq = make_processor("linear", 3, None).transpile(qc)
+            pre = all(len(aslist(g.targets)) + len(aslist(g.controls)) <= 2 for g in tq.gates)
+        except Exception:
+            pre = False
+    try:
+        proc = make_processor("linear", 1, None)
+        comp = recording_compiler(1, proc.params, "linear")
+        comp.compile([Gate("RX", targets=[0], arg_value=0.0), Gate("RX", targets=[0], arg_value=1.0)], schedule_mode=None)
+        drops = len(comp.rec_in) == 1
+    except Exception:
+        drops = False
+    try:
+        make_processor("linear", 1, None).load_circuit(QubitCircuit(1))
+        empty_ok = True
+    except Exception:
+        empty_ok = False
+    return pre, drops, empty_ok
+
+
 def source_flags():
     """(pre, drops, empty_ok): which of the recognised shapes the working tree has (ast, nothing is written)"""
     key = paths.REPO
     if key not in _FLAGS:
-        _, info = T_sc.render()
-        _FLAGS[key] = (detect_pre(), info["drops"], info["empty_ok"])
+        try:
+            _, info = T_sc.render()
+            _FLAGS[key] = (detect_pre(), info["drops"], info["empty_ok"])
+        except TranslatorError:
+            _FLAGS[key] = behavioural_flags()
     return _FLAGS[key]
 
 
@@ -664,6 +748,161 @@ class C06(PropertyCheck):
                 res.disagree(inp, "exact circuit unitary (drv_gates den)", f"max entry difference {d:.3g}",
                              "run_analytically product (global phase included) vs exact unitary", w)
 
+    def _history_cases(self, ctx, res, hists, kind):
+        """histories on ONE processor: (setup, N, params | None, 'fresh' | 'shared', [(mode, gates with p8 angles, via)]).
+        The model's contract: every load_circuit is a function of (processor parameters, circuit, mode, state of the compiler
+        object handed in) only - nothing of an earlier load survives.  'shared': one SpinChainCompiler object is passed to
+        every load, the model is then chained through `phase0` (the value compiler.global_phase holds on entry).
+        Compared after EVERY step: verdict, reported global phase, the stored pulses (bit-exact against a first load of the
+        same circuit on a fresh processor) and the exact unitary against the run_analytically product."""
+        from qutip_qip.compiler import SpinChainCompiler
+        import qutip
+        defaults = self.info["defaults"]
+        drv = ctx.driver("drv_spinchain")
+
+        def line(setup, N, params, mode, gates, phase0):
+            pl = param_lists(setup, N, params, defaults)
+            return (f"load setup={setup} n={N} mode={mode or 'none'} pre={1 if self.pre else 0} phase0={rs(phase0)} "
+                    f"sx={','.join(map(rs, pl['sx']))} sz={','.join(map(rs, pl['sz']))} "
+                    f"sxsy={','.join(map(rs, pl['sxsy'])) or '-'} gates={';'.join(map(enc_gate, gates)) or '-'}")
+
+        # model answers: independent loads in one batch; shared-compiler histories chained step by step
+        answers, batch, where = {}, [], []
+        for hi, (setup, N, params, ck, steps) in enumerate(hists):
+            if ck == "shared":
+                ph = Fraction(0)
+                for k, (mode, gates, via) in enumerate(steps):
+                    o = drv.run([line(setup, N, params, mode, gates, ph)])[0]
+                    answers[(hi, k)] = o
+                    if o.startswith("ok "):
+                        ph = parse_load(o)[1]
+            else:
+                for k, (mode, gates, via) in enumerate(steps):
+                    batch.append(line(setup, N, params, mode, gates, 0))
+                    where.append((hi, k))
+        for key, o in zip(where, drv.run(batch)):
+            answers[key] = o
+        dens = ctx.driver("drv_gates").run([f"den k={N} gates={';'.join(map(enc_gate, gates)) or '-'}"
+                                            for (setup, N, params, ck, steps) in hists for (mode, gates, via) in steps])
+        di = 0
+        for hi, (setup, N, params, ck, steps) in enumerate(hists):
+            fp = None if params is None else {k: ([float(x) for x in v] if isinstance(v, (list, tuple)) else float(v))
+                                              for k, v in params.items()}
+            w = {"kind": "history", "setup": setup, "N": N, "params": fp, "compiler": ck,
+                 "steps": [dict({"mode": mode, "gates": wit(setup, N, mode, None, gates)["gates"]},
+                                **({"via": via} if via else {})) for (mode, gates, via) in steps]}
+            inp = {"history": [[mode, [list(g) for g in gates], via] for (mode, gates, via) in steps], "setup": setup, "N": N,
+                   "compiler": ck, "params": None if params is None else {k: ([rs(x) for x in v] if isinstance(v, (list, tuple)) else rs(v))
+                                                                           for k, v in params.items()}}
+            repeats = sum(1 for k in range(1, len(steps)) if any(steps[j][1] == steps[k][1] for j in range(k)))
+            res.case(inp, nontrivial=len(steps) >= 2, tags=[kind, f"steps={len(steps)}", "compiler=" + ck,
+                                                             "same circuit again=" + str(min(repeats, 3))])
+            proc = make_processor(setup, N, params)
+            shared = SpinChainCompiler(N, proc.params, setup=setup) if ck == "shared" else None
+            for k, (mode, gates, via) in enumerate(steps):
+                o, dn = answers[(hi, k)], dens[di + k]
+                st, mph, mnat, mins = parse_load(o)
+                mst = T_ERR.get(st, st) if st.startswith("err transpile:") else st
+                try:
+                    qc = build_circuit(N, gates)
+                except Exception:
+                    break
+                try:
+                    with SC.patched(None):
+                        if via == "run_state":
+                            proc.run_state(qutip.basis([2] * N, [0] * N), qc=qc, analytical=True)
+                        elif shared is not None:
+                            proc.load_circuit(qc, schedule_mode=mode, compiler=shared)
+                        else:
+                            proc.load_circuit(qc, schedule_mode=mode)
+                    ist = "ok"
+                except Exception as e:
+                    ist = classify(e)
+                    if st.startswith("err transpile:"):
+                        ist = impl_transpile(make_processor(setup, N, params), qc)[0]
+                what = None
+                if mst != ist:
+                    what = (mst, ist, "verdict of the load")
+                elif st == "ok":
+                    if abs(proc.global_phase - float(mph) * PI) > 1e-12 * max(1, abs(float(mph) * PI)):
+                        what = (f"{rs(mph)}*pi", proc.global_phase, "reported global phase")
+                    else:
+                        # the stored pulses: bit-exact those of a first load on a fresh processor
+                        ref = make_processor(setup, N, params)
+                        with SC.patched(None):
+                            ref.load_circuit(qc, schedule_mode=mode)
+                        for a, b in zip(proc.pulses, ref.pulses):
+                            same = (a.label == b.label and (a.tlist is None) == (b.tlist is None) and (a.coeff is None) == (b.coeff is None)
+                                    and (a.tlist is None or np.array_equal(np.asarray(a.tlist), np.asarray(b.tlist)))
+                                    and (a.coeff is None or np.array_equal(np.asarray(a.coeff), np.asarray(b.coeff))))
+                            if not same:
+                                what = ("pulses of a first load on a fresh processor", f"pulse {a.label}: tlist {a.tlist}, coeff {a.coeff}",
+                                        "stored pulses")
+                                break
+                        V = parse_den(dn)
+                        zero = any(du == 0 for (_, _, _, _, du, _) in mins)
+                        n3 = any(len(g[1]) + len(g[2]) > 2 for g in gates)
+                        if what is None and V is not None and not ((zero and not self.skip_zero) or (n3 and not self.pre)):
+                            try:
+                                d = float(np.abs(run_product(proc) - V).max())
+                            except Exception as e:
+                                d = None
+                                what = ("unitary", classify(e), "run_analytically raises")
+                            res.hist["e2e compared (history)"] = res.hist.get("e2e compared (history)", 0) + 1
+                            if d is not None and d > 1e-9:
+                                what = ("exact circuit unitary (drv_gates den)", f"max entry difference {d:.3g}",
+                                        "run_analytically product (global phase included) vs exact unitary")
+                if what:
+                    res.disagree(inp, what[0], what[1], f"history, step {k + 1} of {len(steps)}: " + what[2], w)
+                    break
+            di += len(steps)
+
+    def _rand_history(self, rng, names):
+        """2-5 loads on one processor drawn from a pool of 1-3 circuits (so the same circuit comes again, directly and after
+        another one), schedule modes from a pool of 1-2"""
+        setup = rng.choice(["linear", "circular"])
+        N = rng.randint(2 if setup == "circular" else 1, 4)
+        pool = []
+        for _ in range(rng.randint(1, 3)):
+            r = rng.random()
+            if r < 0.12:
+                gs = []                                        # the empty circuit: nothing of the previous load may survive
+            elif r < 0.2:
+                gs = [["GLOBALPHASE", [], [], 2 * rng.choice([1, 3, -2, 5])]]
+            else:
+                gs = [g for g in (self._rand_gate(rng, N, names, True, False) for _ in range(rng.randint(1, 4))) if g]
+            pool.append(gs)
+        modes = [rng.choice(MODES) for _ in range(rng.randint(1, 2))]
+        ck = "shared" if rng.random() < 0.25 else "fresh"
+        steps = []
+        for _ in range(rng.randint(2, 5)):
+            via = "run_state" if (ck == "fresh" and rng.random() < 0.15) else None
+            steps.append(("ASAP" if via else rng.choice(modes), rng.choice(pool), via))
+        return (setup, N, self._rand_params(rng, setup, N), ck, steps)
+
+    def _fixed_histories(self):
+        """every accepted gate that leaves a global phase behind, loaded twice / three times; A B A A B; through run_state;
+        with one compiler object"""
+        out = []
+        bell = [["SNOT", [0], [], None], ["CNOT", [1], [0], None]]
+        other = [["RX", [1], [], 4], ["ISWAP", [0, 1], [], None]]
+        for setup in ("linear", "circular"):
+            for mode in MODES:
+                out.append((setup, 2, None, "fresh", [(mode, bell, None)] * 3))
+                out.append((setup, 2, None, "fresh", [(mode, bell, None), (mode, other, None), (mode, bell, None), (mode, bell, None),
+                                                      (mode, other, None), (mode, [], None), (mode, bell, None)]))
+            out.append((setup, 2, None, "fresh", [("ASAP", bell, "run_state"), ("ASAP", bell, "run_state")]))
+            out.append((setup, 2, None, "shared", [("ASAP", bell, None), ("ASAP", bell, None), ("ALAP", other, None), ("ASAP", bell, None)]))
+            out.append((setup, 2, None, "fresh", [("ASAP", bell, None), ("ALAP", bell, None), (None, bell, None), ("ASAP", bell, None)]))
+        for name in ACCEPTED:
+            nc, nt, par = SHAPE[name]
+            if nc + nt > 3 or (nc + nt > 2 and not self.pre):
+                continue
+            N = max(1, nc + nt)
+            g = [name, list(range(nt)), list(range(nt, nt + nc)), (6 if par else None)]
+            out.append(("linear", N, None, "fresh", [("ASAP", [g], None), ("ASAP", [g], None)]))
+        return out
+
     def _compile_cases(self, ctx, res, cases, kind):
         """direct compile of gate lists (no transpile, no label check): (setup, N, mode, params, gates)"""
         from qutip_qip.operations import Gate
@@ -772,8 +1011,22 @@ class C06(PropertyCheck):
         gs = [g for g in (self._rand_gate(rng, N, names, even, zero) for _ in range(rng.randint(0, maxlen))) if g]
         return (setup, N, rng.choice(MODES), self._rand_params(rng, setup, N), gs)
 
+    def _ensure_info(self, ctx):
+        """regenerate() failed (source not recognised: the check is red): the drivers still hold the tables of the last
+        recognised source, so the correspondence and the failing-input search go on with those and with the behaviour
+        flags observed on the live objects"""
+        if getattr(self, "info", None) is not None:
+            return
+        ans = ctx.driver("drv_spinchain").run(["tables"])[0]
+        f = dict(x.split("=", 1) for x in ans[3:].split(" "))
+        dd = [Fraction(x) for x in f["defaults"].split(",")]
+        self.pre, self.skip_zero, self.empty_ok = source_flags()
+        self.info = {"defaults": {"sx": dd[0], "sz": dd[1], "sxsy": dd[2]}, "drops": self.skip_zero, "empty_ok": self.empty_ok}
+        ctx.log("source not recognised by the translator: correspondence run against the tables of the last recognised source")
+
     def correspondence(self, ctx, res):
         rng = ctx.rng
+        self._ensure_info(ctx)
         self._tables_check(ctx, res)
         nlab = self._label_cases(ctx, res, 40 if ctx.thorough else 12)
         # exhaustive: every placement of every accepted gate (one angle each), 1-4 qubits (thorough: 5), both topologies,
@@ -810,6 +1063,18 @@ class C06(PropertyCheck):
             names = two if r < 0.6 else (ACCEPTED if r < 0.85 else ["RX", "RZ", "RY", "ISWAP", "SQRTISWAP", "GLOBALPHASE", "PHASEGATE"])
             cases.append(self._rand_case(rng, names, even=(rng.random() < 0.8), zero=(rng.random() < 0.5)))
         self._load_cases(ctx, res, cases, "random", e2e_budget=(600 if ctx.thorough else 15))
+        # histories: several loads on ONE processor (the same circuit again, circuits alternately, run_state(qc=...), one
+        # compiler object for every load)
+        hists = self._fixed_histories()
+        for i in range(400 if ctx.thorough else 40):
+            hists.append(self._rand_history(rng, two if (rng.random() < 0.8 or not self.pre) else ACCEPTED))
+        if not self.empty_ok:
+            hists = [h for h in hists if all(not no_pulse({"gates": gs}, self.skip_zero) for (_, gs, _) in h[4])]
+        self._history_cases(ctx, res, hists, "history")
+        res.notes.append(f"histories: {len(hists)} sequences of 2-7 loads on one processor instance (the same circuit two and three "
+                         "times in a row, circuits alternately, different schedule modes, the empty circuit in between, through "
+                         "run_state(qc=...), one compiler object handed to every load); after every load: verdict, reported global "
+                         "phase, stored pulses bit-exact against a first load on a fresh processor, exact unitary")
         # direct compile: native gate lists incl. non-adjacent exchange gates, unsupported names, out-of-range qubits
         cases = []
         for i in range(1500 if ctx.thorough else 200):
@@ -841,6 +1106,8 @@ class C06(PropertyCheck):
         """classes the hypotheses of end_to_end_partial exclude for the source as it is now"""
         if w.get("kind") == "label":
             return False
+        if w.get("kind") == "history":
+            return any(self._excluded(step_witness(w, s)) for s in w["steps"])
         pre, drops, empty_ok = source_flags()
         if has_three_qubit_gate(w) and not pre:
             return True
@@ -851,13 +1118,41 @@ class C06(PropertyCheck):
         return False
 
     def _systematic(self):
+        yield from self._systematic_core()
+        yield from self._systematic_grid()
+
+    ANG = [1.0, -2.5, 7.0, math.pi, -math.pi / 2, 2 * math.pi, 0.0,
+           -2 * math.pi, 3 * math.pi, -9.1, 4 * math.pi, -4 * math.pi, 13.5, -5 * math.pi, 6.5 * math.pi]
+
+    def _systematic_core(self):
+        """run completely on every check: labels of neighbours, rotations by angles of every range, histories"""
+        ang = self.ANG
         for setup in ("linear", "circular"):
             for N in range(2, 6):
                 for a in range(N):
                     for b in range(N):
                         if a != b and (abs(a - b) == 1 or (setup == "circular" and {a, b} == {0, N - 1})):
                             yield {"kind": "label", "setup": setup, "N": N, "a": a, "b": b}
-        ang = [1.0, -2.5, 7.0, math.pi, -math.pi / 2, 2 * math.pi, 0.0]
+        # angles: below a turn, exactly +-2pi, inside [2pi, 4pi) on both sides, exactly +-4pi, beyond 4pi, zero
+        # (R(theta) has period 4pi, not 2pi: R(theta + 2pi) = -R(theta))
+        # first of all: single rotations and phase gates alone and inside a routed circuit with per-qubit strengths
+        for a in ang:
+            for name in ("RX", "RY", "RZ", "PHASEGATE"):
+                yield {"kind": "load", "setup": "linear", "N": 1, "mode": "ASAP", "params": None, "gates": [[name, [0], [], a]]}
+        for a in [1.0, 7.0, 2 * math.pi, -2 * math.pi, -9.1, 4 * math.pi, 13.5]:
+            for name, setup in (("RX", "linear"), ("RY", "circular"), ("RZ", "linear")):
+                yield {"kind": "load", "setup": setup, "N": 3, "mode": "ALAP",
+                       "params": {"sx": [0.3, 0.25, 0.4], "sz": [1.0, 0.8, 1.3], "sxsy": [0.1, 0.15, 0.12][:n_coupling(setup, 3)]},
+                       "gates": [["SNOT", [0], [], None], [name, [2], [], a], ["CNOT", [0], [2], None]]}
+        # histories: every accepted gate loaded twice on one processor; A B A; through run_state; one compiler object
+        for w in self._systematic_histories(three=False):
+            yield w
+
+    def _systematic_grid(self):
+        """every placement of every accepted gate x angle x mode (sampled by oracle_always, walked through by oracle_search)"""
+        ang = self.ANG
+        for w in self._systematic_histories(three=True):
+            yield w
         for setup in ("linear", "circular"):
             for N in (1, 2, 3, 4):
                 if setup == "circular" and N < 2:
@@ -876,6 +1171,52 @@ class C06(PropertyCheck):
             for seq in itertools.product([["RX", [0], [], 1.0], ["RX", [0], [], 0.0], ["RZ", [0], [], 2.0], ["RZ", [0], [], 0.0]], repeat=3):
                 yield {"kind": "load", "setup": "linear", "N": 1, "mode": mode, "params": None, "gates": [list(g) for g in seq]}
 
+    def _systematic_histories(self, three=False):
+        bell = [["SNOT", [0], [], None], ["CNOT", [1], [0], None]]
+        other = [["RX", [1], [], 1.0], ["ISWAP", [0, 1], [], None]]
+        for setup in (() if three else ("linear", "circular")):
+            for mode in MODES:
+                st = lambda gs, **kw: dict({"mode": mode, "gates": gs}, **kw)
+                yield {"kind": "history", "setup": setup, "N": 2, "params": None, "compiler": "fresh",
+                       "steps": [st(bell), st(bell), st(bell)]}
+                yield {"kind": "history", "setup": setup, "N": 2, "params": None, "compiler": "fresh",
+                       "steps": [st(bell), st(other), st(bell), st([]), st(bell)]}
+                yield {"kind": "history", "setup": setup, "N": 2, "params": None, "compiler": "shared",
+                       "steps": [st(bell), st(bell), st(other), st(bell)]}
+            yield {"kind": "history", "setup": setup, "N": 2, "params": None, "compiler": "fresh",
+                   "steps": [{"mode": "ASAP", "gates": bell, "via": "run_state"}, {"mode": "ASAP", "gates": bell, "via": "run_state"}]}
+            yield {"kind": "history", "setup": setup, "N": 2, "params": None, "compiler": "fresh",
+                   "steps": [{"mode": m, "gates": bell} for m in ("ASAP", "ALAP", None, "ASAP")]}
+        for name in ACCEPTED:
+            nc, nt, par = SHAPE[name]
+            N = max(1, nc + nt)
+            if (nc + nt > 2) != three:
+                continue
+            g = [name, list(range(nt)), list(range(nt, nt + nc)), (0.7 if par else None)]
+            for ck in ("fresh", "shared"):
+                yield {"kind": "history", "setup": "linear", "N": N, "params": None, "compiler": ck,
+                       "steps": [{"mode": "ASAP", "gates": [g]}, {"mode": "ASAP", "gates": [g]}]}
+
+    def _rand_history_witness(self, rng):
+        """2-5 loads on one processor from a pool of 1-3 random circuits"""
+        three = rng.random() < 0.2
+        base = self._rand_witness(rng, three=three, zero=False)
+        pool = [base["gates"]]
+        for _ in range(rng.randint(0, 2)):
+            w2 = None
+            while w2 is None or w2["N"] > base["N"]:
+                w2 = self._rand_witness(rng, three=three, zero=False)
+            pool.append(w2["gates"] if rng.random() < 0.85 else [])
+        ck = "shared" if rng.random() < 0.25 else "fresh"
+        modes = [rng.choice(MODES) for _ in range(rng.randint(1, 2))]
+        steps = []
+        for _ in range(rng.randint(2, 5)):
+            if ck == "fresh" and rng.random() < 0.15:
+                steps.append({"mode": "ASAP", "gates": rng.choice(pool), "via": "run_state"})
+            else:
+                steps.append({"mode": rng.choice(modes), "gates": rng.choice(pool)})
+        return {"kind": "history", "setup": base["setup"], "N": base["N"], "params": base["params"], "compiler": ck, "steps": steps}
+
     def _rand_witness(self, rng, three=True, zero=True):
         setup = rng.choice(["linear", "circular"])
         N = rng.randint(2 if setup == "circular" else 1, 5)
@@ -889,7 +1230,8 @@ class C06(PropertyCheck):
             qs = rng.sample(range(N), nc + nt)
             a = None
             if par:
-                ch = [rng.uniform(-7, 7), -math.pi, 2 * math.pi, 9.5, math.pi / 2, -3 * math.pi / 4, 1e-3]
+                ch = [rng.uniform(-7, 7), rng.uniform(-14, 14), rng.choice([-1, 1]) * rng.uniform(2 * math.pi, 4 * math.pi),
+                      -math.pi, 2 * math.pi, -2 * math.pi, 4 * math.pi, -4 * math.pi, 9.5, math.pi / 2, -3 * math.pi / 4, 1e-3]
                 if zero:
                     ch += [0.0, 0.0]
                 a = rng.choice(ch)
@@ -913,9 +1255,11 @@ class C06(PropertyCheck):
                 yield w, d
             if time.time() - t0 > budget_s:
                 return
+        i = 0
         while time.time() - t0 < budget_s:
-            w = self._rand_witness(ctx.rng)
-            if not w["gates"] or self._excluded(w):
+            i += 1
+            w = self._rand_history_witness(ctx.rng) if i % 4 == 0 else self._rand_witness(ctx.rng)
+            if (w["kind"] == "load" and not w["gates"]) or self._excluded(w):
                 continue
             f, d = check_property(w)
             if f:
@@ -923,19 +1267,25 @@ class C06(PropertyCheck):
 
     def oracle_always(self, ctx):
         """cheap sweep; inputs of the classes excluded by the theorems' hypotheses (known findings) are skipped"""
+        for w in self._systematic_core():
+            if self._excluded(w):
+                continue
+            f, d = check_property(w)
+            if f:
+                yield w, d
         k = 0
-        for w in self._systematic():
+        for w in self._systematic_grid():
             k += 1
-            if w.get("kind") == "load" and (k % (3 if ctx.thorough else 17)) != 0:
+            if (k % (5 if ctx.thorough else 37)) != 0:
                 continue
             if self._excluded(w):
                 continue
             f, d = check_property(w)
             if f:
                 yield w, d
-        for _ in range(1200 if ctx.thorough else 90):
-            w = self._rand_witness(ctx.rng)
-            if not w["gates"] or self._excluded(w):
+        for i in range(1200 if ctx.thorough else 90):
+            w = self._rand_history_witness(ctx.rng) if i % 6 == 5 else self._rand_witness(ctx.rng)
+            if (w["kind"] == "load" and not w["gates"]) or self._excluded(w):
                 continue
             f, d = check_property(w)
             if f:
